@@ -21,17 +21,18 @@ Theorem C11_units_cover :
 Proof. exact units_cover. Qed.
 Print Assumptions C11_units_cover.
 
-(* outside the recorded class F15, two units convert exactly when CSS puts them in one group *)
-Theorem C11_groups : forall u v, In u real_units -> In v real_units -> known_pair u v = false ->
+(* two units convert exactly when CSS puts them in one group (no exception since the fix of F15) *)
+Theorem C11_groups : forall u v, In u real_units -> In v real_units ->
   convertible u v = same_group (disp u) (disp v).
 Proof. exact groups. Qed.
 Print Assumptions C11_groups.
 
-(* F15: the full statement is false of the faithful model *)
-Theorem C11_refuted_groups : exists u v, In u real_units /\ In v real_units /\ known_pair u v = true /\
-  convertible u v = true /\ same_group (disp u) (disp v) = false.
-Proof. exact refuted_groups. Qed.
-Print Assumptions C11_refuted_groups.
+Theorem C11_lone_units_do_not_convert :
+  convertible (UK "Em") (UK "Ex") = false /\ convertible (UK "Em") (UK "Ch") = false
+  /\ convertible (UK "Vmin") (UK "Vmax") = false /\ convertible (UK "Percent") (UK "Fr") = false
+  /\ convertible (UK "Fr") (UK "Percent") = false.
+Proof. exact lone_units_do_not_convert. Qed.
+Print Assumptions C11_lone_units_do_not_convert.
 
 (* inside a CSS group the binary64 factor used is the CSS ratio to 1e-15 *)
 Theorem C11_ratios : forall u v, In u real_units -> In v real_units -> ratio_ok u v = true.
@@ -94,7 +95,7 @@ Print Assumptions C11_div_same_unit.
 
 (* non-vacuity: concrete units meeting the hypotheses *)
 Example C11_nonvacuous :
-  In (UK "Px") real_units /\ In (UK "In") real_units /\ known_pair (UK "Px") (UK "In") = false
+  In (UK "Px") real_units /\ In (UK "In") real_units
   /\ convertible (UK "Px") (UK "In") = true
   /\ is_unit_none (UK "Px") = false /\ unit_eqb (UK "Px") (UK "S") = false
   /\ convertible (UK "S") (UK "Px") = false.
